@@ -36,12 +36,15 @@ PARAM_KINDS = OrderedDict(
         ("strx_nodoc", OrderedDict((("typ", "str"), ("default", "x")))),
         ("lit_nodoc", OrderedDict((("typ", "Literal['fast', 'slow', 'dry']"), ("default", "fast")))),
         ("lit", OrderedDict((("doc", "the mode"), ("typ", "Literal['fast', 'slow', 'dry']"), ("default", "fast")))),
+        # a description longer than any wrap column (the command line's word-wrap switch decides whether created targets fold it)
+        ("longdoc", OrderedDict((("doc", "the directory that every intermediate artefact of the run is written to, created on demand and emptied again after each epoch has completed"), ("typ", "str"), ("default", "out")))),
     )
 )
 TRUTHS = [["int5"], ["strx"], ["int5", "strx"], ["strx", "boolf"], ["boolf", "int5"], ["float_nodefault", "int5"], ["optstr"], ["int5", "optstr"], ["int5", "strx", "boolf"], ["strx", "int5", "optstr"],
           ["int5_nodoc", "strx_nodoc"], ["strx_nodoc", "lit_nodoc", "int5_nodoc"], ["strx", "lit"], ["lit_nodoc"],
           # truths that document a return value ("+ret" is not a parameter kind: it adds the return entry)
-          ["int5", "+ret"], ["strx", "boolf", "+ret"]]
+          ["int5", "+ret"], ["strx", "boolf", "+ret"],
+          ["longdoc"], ["int5", "longdoc"]]
 DIFFERENT = ["zeta_int9"]
 # near-miss targets: the truth with one default changed / one trailing parameter more / its last parameter missing / its Literal one member short
 STATES = ["equivalent", "different", "diff_default", "diff_extra", "diff_tail_missing", "diff_literal_short", "missing", "empty"]
@@ -49,6 +52,25 @@ STATES = ["equivalent", "different", "diff_default", "diff_extra", "diff_tail_mi
 STYLE_STATES = ["equivalent_google", "equivalent_numpydoc"]
 # a class target laid out attribute(s), method, attribute: the truth's attributes, then a method, then one attribute more (class targets only)
 LAYOUT_STATES = ["diff_method_between"]
+# legal but unusual statement orders of an argparse-function *truth*: what it says does not depend on where its description is assigned
+TRUTH_LAYOUTS = ["description_last", "description_after_first", "extra_statement_first", "description_absent"]
+
+
+def relayout_argparse(src, how):
+    tree = ast.parse(src)
+    fn, _ = find_target(tree, "argparse_function")
+    i = next(k for k, st in enumerate(fn.body) if isinstance(st, ast.Assign) and isinstance(st.targets[0], ast.Attribute) and st.targets[0].attr == "description")
+    stmt = fn.body.pop(i)
+    if how == "description_last":
+        fn.body.insert(len(fn.body) - 1, stmt)  # before the final return
+    elif how == "description_after_first":
+        fn.body.insert(i + 1, stmt)
+    elif how == "extra_statement_first":
+        fn.body.insert(i, stmt)
+        fn.body.insert(i, ast.parse("argument_parser.prog = 'tool'").body[0])
+    elif how != "description_absent":
+        raise ValueError(how)
+    return ast.unparse(ast.fix_missing_locations(tree)) + "\n"
 
 PRE = 'import os\n\n\ndef unrelated_before(q=1):\n    """Unrelated."""\n    return q\n\n\n'
 POST = '\n\nclass UnrelatedAfter(object):\n    """Unrelated."""\n\n    k: int = 3\n'
@@ -98,7 +120,8 @@ def render_target(kind, ir, style="rest"):
         node = cdd.function.emit.function(ir, function_name="method", function_type="self", emit_default_doc=False, indent_level=2, emit_as_kwonlyargs=False, docstring_format=style)
         body = "\n".join("    " + l if l.strip() else l for l in F.render(node).split("\n"))
         return PRE + 'class C(object):\n    """C"""\n\n' + body + "\n" + POST
-    node = cdd.argparse_function.emit.argparse_function(ir, emit_default_doc=False, function_name="set_cli_args", function_type="static")
+    # help strings are literals: an initial target is written unfolded (a folded one would hold another description than the truth)
+    node = cdd.argparse_function.emit.argparse_function(ir, emit_default_doc=False, function_name="set_cli_args", function_type="static", word_wrap=False)
     return PRE + F.render(node) + "\n" + POST
 
 
@@ -131,6 +154,10 @@ def cases(tier, seed):
             for sa, sb in itertools.product(STATES, repeat=2):
                 if t in (TRUTHS[2], TRUTHS[9], TRUTHS[12]) and sa in ("equivalent", "different", "missing") and sb in ("equivalent", "diff_default", "empty"):
                     yield dict(truth=truth, iface=t, states={others[0]: sa, others[1]: sb}, no_word_wrap=True)
+            if truth == "argparse_function" and (tier == "thorough" or t in (TRUTHS[0], TRUTHS[2], TRUTHS[9], TRUTHS[12], TRUTHS[14])):
+                for lay in TRUTH_LAYOUTS:
+                    for sa, sb in itertools.product(("equivalent", "different", "diff_default", "missing", "empty"), repeat=2):
+                        yield dict(truth=truth, iface=t, states={others[0]: sa, others[1]: sb}, truth_layout=lay)
 
 
 def find_target(tree, kind):
@@ -203,6 +230,8 @@ def run(case):
     base_ctx = dict(check="sync", truth=truth)
     if case.get("no_word_wrap"):
         base_ctx["no_word_wrap"] = True
+    if case.get("truth_layout"):
+        base_ctx["truth_layout"] = case["truth_layout"]
     if len({("doc" in p) for p in T["params"].values()}) == 2:
         base_ctx["mixed_doc"] = True  # the truth documents some of its parameters and not others
 
@@ -236,7 +265,14 @@ def run(case):
             initial[k] = src
             with open(p, "wt") as f:
                 f.write(src)
+        # what the truth says is read from its standard layout; a re-ordered truth must say the same
         gold = parse_target(truth, find_target(ast.parse(initial[truth]), truth)[0])
+        if case.get("truth_layout"):
+            initial[truth] = relayout_argparse(initial[truth], case["truth_layout"])
+            with open(os.path.join(d, FILES[truth]), "wt") as f:
+                f.write(initial[truth])
+            if case["truth_layout"] == "description_absent":
+                gold["doc"] = ""
         prev = snapshot(d)
         for rnd in (1, 2, 3):
             transitions += 1
@@ -283,12 +319,21 @@ def run(case):
                     for x in O.compare(gold, got, rules, ctx):
                         x["detail"] = src
                         viol.append(x)
+                    # descriptions are compared up to white space by the shared oracle (docstring text may be re-flowed); a line break *inside the parsed description* that the
+                    # truth's description does not have is a different description all the same (an argparse help string is a literal, nothing re-flows it)
+                    for name, p in (got.get("params") or {}).items():
+                        g = (gold.get("params") or {}).get(name) or {}
+                        if isinstance(p.get("doc"), str) and isinstance(g.get("doc"), str) and "\n" in p["doc"].strip() and "\n" not in g["doc"].strip():
+                            v("description_line_break", repr(g["doc"]), repr(p["doc"]), target=k, initial=st)
+                            break
                     if k != truth and initial[k]:
                         # code outside the named target is unchanged
                         if rest_dump(initial[k], k) != rest_dump(src, k):
                             v("outside_target_changed", "AST outside the target unchanged", "changed", target=k, initial=st)
-                    if k == truth and initial[k] is not None and ast.dump(ast.parse(initial[k])) != ast.dump(tree):
-                        v("truth_changed", "truth file AST unchanged", "changed", target=k)
+                    # the truth may be re-rendered (sync conforms it like every other listed file: a hand-wrapped description is unfolded); the property asks for its
+                    # *interface* to be unchanged - compared above like every other target - and for the code around it to stay
+                    if k == truth and initial[k] is not None and rest_dump(initial[k], k) != rest_dump(src, k):
+                        v("truth_changed", "AST of the truth file outside the truth itself unchanged", "changed", target=k)
             else:
                 changed = [k for k in KINDS if snap[k] != prev[k]]
                 if changed:
@@ -309,7 +354,7 @@ def describe(tier):
     return dict(
         rule="initial states: truth kind in {{class, function, argparse_function}} x {n} truth interfaces (1-3 parameters over 9 kinds, with and without per-parameter descriptions) x each of the two "
         "other targets in {{equivalent, different, near misses (one default changed, one trailing parameter more, last parameter missing, Literal one member short), missing, empty}}; every file holds an unrelated definition before and after its target; transition = "
-        "one real `sync` run; runs 1..3 (closes when a run changes nothing); a case = one initial state".format(n=len(TRUTHS)),
+        "one real `sync` run; runs 1..3 (closes when a run changes nothing); argparse truths also in {tl} unusual statement orders (the interface read from the standard order is the reference); a case = one initial state".format(n=len(TRUTHS), tl=len(TRUTH_LAYOUTS)),
         bounds=dict(truths=TRUTHS if tier == "quick" else "all 1- and 2-tuples over %d parameter kinds + 27 triples" % len(PARAM_KINDS), states=STATES, kinds=KINDS, rounds=3),
         exhaustive=True,
         assumptions=["all three kinds are always listed (the command requires it)", "'code outside the targets unchanged' is compared on ASTs: the command re-renders whole files",
